@@ -952,6 +952,11 @@ def run_property(ctx, pid, nclusters_quick, nhosts):
             continue
         violations.append({"what": what, "found_input": True,
                            "replay_obj": {"property": pid, "kind": "monitor", "signature": f["sig"], "why": f["why"], "case": small, "observed": oo}})
+    # observed quirk outside the property's precondition (empty Host header): reported as a known finding only when listed
+    quirk = [(cl["id"], ri) for cl, co in zip(clusters, outs) for ri, ob in enumerate(co.get("requests") or []) if ob.get("_empty_host_rewritten")]
+    if quirk and any(k["sig"] == "empty-host" for k in kf):
+        known.append("sig=empty-host a request arriving with an empty Host header reaches the upstream with Host = <endpoint id> (%d request(s), first %s/%d)"
+                     % (len(quirk), quirk[0][0], quirk[0][1]))
     if bad_hosts and not any(v["found_input"] for v in violations):
         i = bad_hosts[0]
         hdr, host = hosts[i]
@@ -1016,6 +1021,7 @@ def run_property(ctx, pid, nclusters_quick, nhosts):
            "correspondence": {"harness": "proxy (TestVerifHarness_Proxy, package server/proxy)", "histories": len(clusters), "ops": nreq,
                               "distribution": dist, "disagreements": len(dis), "host_pairs": len(hosts), "host_disagreements": len(bad_hosts), "seed": ctx["seed"]},
            "monitor": {"histories": len(clusters), "requests": nreq, "failures": len(mon_fail)},
+           "observations": {"empty_host_rewritten_to_endpoint_id": len(quirk)},
            "harness_wall_s": round(t_h, 1), "coq_eval_wall_s": round(t_c, 1)}
     return {"coverage": cov, "violations": violations, "known": known}
 
